@@ -4,6 +4,7 @@
 import HugrVerif.Resolve
 import HugrVerif.Proofs.TysCodec
 import HugrVerif.Proofs.OpsCodec
+import HugrVerif.SerialCodecs
 
 namespace HugrVerif.Resolve
 open HugrVerif HugrVerif.Py HugrVerif.Ty HugrVerif.Codec
@@ -178,8 +179,9 @@ theorem opDefRef_names (r : Registry) (hwf : RegistryWf r) (ext name : String) (
 /-! ### resolution keeps the class of everything but opaque types -/
 
 theorem isPoly_resolveTy (r : Registry) (t : Ty) : (resolveTy r t).isPoly = t.isPoly := by
-  cases t <;> simp [resolveTy, isPoly]
-  split <;> rfl
+  cases t with
+  | «opaque» id b args ext => rw [resolveTy]; cases lookupType r ext id <;> rfl
+  | _ => simp [resolveTy, isPoly]
 
 /-! ### the serialised form and the bound are invariant -/
 
@@ -283,7 +285,7 @@ theorem wire_all (r : Registry) (hwf : RegistryWf r) : (∀ t, WireOK r t) ∧ (
       exact ⟨by rw [resolveArg, encArg, encArg, encArgs_resolveArgs r es (fun a ha => (ih a ha (hc a ha)).1)], rfl⟩
     | -- everything else is returned as it is
       intros
-      exact ⟨rfl, rfl⟩
+      exact fun _ => ⟨by simp [resolveTy, resolveArg], by simp [resolveTy, resolveArg]⟩
 
 /-! ### the exported model term is invariant -/
 
@@ -357,6 +359,16 @@ theorem model_all (r : Registry) (hwf : RegistryWf r) :
 
 /-! ### resolving twice is resolving once -/
 
+theorem idem_opaque (r : Registry) (id : String) (b : Bound) (args : List TypeArg) (ext : String)
+    (ih : ∀ a ∈ args, resolveArg r (resolveArg r a) = resolveArg r a) :
+    resolveTy r (resolveTy r (.opaque id b args ext)) = resolveTy r (.opaque id b args ext) := by
+  have h1 : resolveArgs r (resolveArgs r args) = resolveArgs r args := by
+    rw [resolveArgs_eq_map, resolveArgs_eq_map, List.map_map]; exact List.map_congr_left ih
+  rw [resolveTy]
+  cases hl : lookupType r ext id with
+  | none => simp only []; rw [resolveTy, hl]; simp only []; rw [h1]
+  | some td => simp [resolveTy]
+
 theorem idem_all (r : Registry) :
     (∀ t, resolveTy r (resolveTy r t) = resolveTy r t) ∧ (∀ a, resolveArg r (resolveArg r a) = resolveArg r a) := by
   refine ⟨@induct_ty (fun t => resolveTy r (resolveTy r t) = resolveTy r t) (fun a => resolveArg r (resolveArg r a) = resolveArg r a)
@@ -384,12 +396,7 @@ theorem idem_all (r : Registry) :
         rw [resolveRow_eq_map, resolveRow_eq_map, List.map_map]; exact List.map_congr_left iho
       rw [resolveTy, resolveTy, h1, h2]
     | intro id b args ext ih
-      have h1 : resolveArgs r (resolveArgs r args) = resolveArgs r args := by
-        rw [resolveArgs_eq_map, resolveArgs_eq_map, List.map_map]; exact List.map_congr_left ih
-      rw [resolveTy]
-      cases hl : lookupType r ext id with
-      | none => simp only []; rw [resolveTy, hl]; simp only []; rw [h1]
-      | some td => simp only []; rw [resolveTy]
+      exact idem_opaque r id b args ext ih
     | intro t ih
       rw [resolveArg, resolveArg, ih]
     | intro es ih
@@ -398,5 +405,568 @@ theorem idem_all (r : Registry) :
       rw [resolveArg, resolveArg, h1]
     | intros
       rfl
+
+/-! ### resolution depends only on the definitions that are looked up; what it leaves behind -/
+
+theorem congr_all (r r' : Registry) :
+    (∀ t, (∀ x ∈ opaques t, lookupType r x.1 x.2 = lookupType r' x.1 x.2) → resolveTy r t = resolveTy r' t) ∧
+    (∀ a, (∀ x ∈ opaquesArg a, lookupType r x.1 x.2 = lookupType r' x.1 x.2) → resolveArg r a = resolveArg r' a) := by
+  refine ⟨@induct_ty
+            (fun t => (∀ x ∈ opaques t, lookupType r x.1 x.2 = lookupType r' x.1 x.2) → resolveTy r t = resolveTy r' t)
+            (fun a => (∀ x ∈ opaquesArg a, lookupType r x.1 x.2 = lookupType r' x.1 x.2) → resolveArg r a = resolveArg r' a)
+            ?_ ?_ ?_ ?_ ?_ ?_ ?_ ?_ ?_ ?_ ?_ ?_ ?_ ?_ ?_ ?_ ?_,
+          @induct_arg
+            (fun t => (∀ x ∈ opaques t, lookupType r x.1 x.2 = lookupType r' x.1 x.2) → resolveTy r t = resolveTy r' t)
+            (fun a => (∀ x ∈ opaquesArg a, lookupType r x.1 x.2 = lookupType r' x.1 x.2) → resolveArg r a = resolveArg r' a)
+            ?_ ?_ ?_ ?_ ?_ ?_ ?_ ?_ ?_ ?_ ?_ ?_ ?_ ?_ ?_ ?_ ?_⟩
+  all_goals first
+    | intro rows ih h
+      rw [opaques] at h
+      have : resolveRows r rows = resolveRows r' rows := by
+        rw [resolveRows_eq_map, resolveRows_eq_map]
+        refine List.map_congr_left (fun row hr => ?_)
+        rw [resolveRow_eq_map, resolveRow_eq_map]
+        exact List.map_congr_left (fun t ht => ih row hr t ht
+          (fun x hx => h x ((opaquesRows_mem rows x).2 ⟨row, hr, t, ht, hx⟩)))
+      rw [resolveTy, resolveTy, this]
+    | intro i o rq ihi iho h
+      rw [opaques] at h
+      have h1 : resolveRow r i = resolveRow r' i := by
+        rw [resolveRow_eq_map, resolveRow_eq_map]
+        exact List.map_congr_left (fun t ht => ihi t ht
+          (fun x hx => h x (List.mem_append_left _ ((opaquesRow_mem i x).2 ⟨t, ht, hx⟩))))
+      have h2 : resolveRow r o = resolveRow r' o := by
+        rw [resolveRow_eq_map, resolveRow_eq_map]
+        exact List.map_congr_left (fun t ht => iho t ht
+          (fun x hx => h x (List.mem_append_right _ ((opaquesRow_mem o x).2 ⟨t, ht, hx⟩))))
+      rw [resolveTy, resolveTy, h1, h2]
+    | intro ps i o rq ihi iho h
+      rw [opaques] at h
+      have h1 : resolveRow r i = resolveRow r' i := by
+        rw [resolveRow_eq_map, resolveRow_eq_map]
+        exact List.map_congr_left (fun t ht => ihi t ht
+          (fun x hx => h x (List.mem_append_left _ ((opaquesRow_mem i x).2 ⟨t, ht, hx⟩))))
+      have h2 : resolveRow r o = resolveRow r' o := by
+        rw [resolveRow_eq_map, resolveRow_eq_map]
+        exact List.map_congr_left (fun t ht => iho t ht
+          (fun x hx => h x (List.mem_append_right _ ((opaquesRow_mem o x).2 ⟨t, ht, hx⟩))))
+      rw [resolveTy, resolveTy, h1, h2]
+    | intro id b args ext ih h
+      rw [opaques] at h
+      have h1 : resolveArgs r args = resolveArgs r' args := by
+        rw [resolveArgs_eq_map, resolveArgs_eq_map]
+        exact List.map_congr_left (fun a ha => ih a ha
+          (fun x hx => h x (List.mem_cons_of_mem _ ((opaquesArgs_mem args x).2 ⟨a, ha, hx⟩))))
+      have h0 := h (ext, id) List.mem_cons_self
+      simp only at h0
+      rw [resolveTy, resolveTy, h0, h1]
+    | intro t ih h
+      rw [opaquesArg] at h
+      rw [resolveArg, resolveArg, ih h]
+    | intro es ih h
+      rw [opaquesArg] at h
+      have h1 : resolveArgs r es = resolveArgs r' es := by
+        rw [resolveArgs_eq_map, resolveArgs_eq_map]
+        exact List.map_congr_left (fun a ha => ih a ha (fun x hx => h x ((opaquesArgs_mem es x).2 ⟨a, ha, hx⟩)))
+      rw [resolveArg, resolveArg, h1]
+    | intros
+      simp [resolveTy, resolveArg]
+
+/-- after resolution no opaque type that names a known definition is left at any depth -/
+theorem remaining_all (r : Registry) :
+    (∀ t, ∀ x ∈ opaques (resolveTy r t), lookupType r x.1 x.2 = none) ∧
+    (∀ a, ∀ x ∈ opaquesArg (resolveArg r a), lookupType r x.1 x.2 = none) := by
+  refine ⟨@induct_ty (fun t => ∀ x ∈ opaques (resolveTy r t), lookupType r x.1 x.2 = none)
+            (fun a => ∀ x ∈ opaquesArg (resolveArg r a), lookupType r x.1 x.2 = none)
+            ?_ ?_ ?_ ?_ ?_ ?_ ?_ ?_ ?_ ?_ ?_ ?_ ?_ ?_ ?_ ?_ ?_,
+          @induct_arg (fun t => ∀ x ∈ opaques (resolveTy r t), lookupType r x.1 x.2 = none)
+            (fun a => ∀ x ∈ opaquesArg (resolveArg r a), lookupType r x.1 x.2 = none)
+            ?_ ?_ ?_ ?_ ?_ ?_ ?_ ?_ ?_ ?_ ?_ ?_ ?_ ?_ ?_ ?_ ?_⟩
+  all_goals first
+    | intro rows ih x hx
+      rw [resolveTy, opaques, opaquesRows_mem] at hx
+      obtain ⟨row', hr', t', ht', hx'⟩ := hx
+      rw [resolveRows_eq_map, List.mem_map] at hr'
+      obtain ⟨row, hr, rfl⟩ := hr'
+      rw [resolveRow_eq_map, List.mem_map] at ht'
+      obtain ⟨t, ht, rfl⟩ := ht'
+      exact ih row hr t ht x hx'
+    | intro i o rq ihi iho x hx
+      rw [resolveTy, opaques, List.mem_append, opaquesRow_mem, opaquesRow_mem] at hx
+      rcases hx with ⟨t', ht', hx'⟩ | ⟨t', ht', hx'⟩
+      · rw [resolveRow_eq_map, List.mem_map] at ht'
+        obtain ⟨t, ht, rfl⟩ := ht'
+        exact ihi t ht x hx'
+      · rw [resolveRow_eq_map, List.mem_map] at ht'
+        obtain ⟨t, ht, rfl⟩ := ht'
+        exact iho t ht x hx'
+    | intro ps i o rq ihi iho x hx
+      rw [resolveTy, opaques, List.mem_append, opaquesRow_mem, opaquesRow_mem] at hx
+      rcases hx with ⟨t', ht', hx'⟩ | ⟨t', ht', hx'⟩
+      · rw [resolveRow_eq_map, List.mem_map] at ht'
+        obtain ⟨t, ht, rfl⟩ := ht'
+        exact ihi t ht x hx'
+      · rw [resolveRow_eq_map, List.mem_map] at ht'
+        obtain ⟨t, ht, rfl⟩ := ht'
+        exact iho t ht x hx'
+    | intro id b args ext ih x hx
+      rw [resolveTy] at hx
+      cases hl : lookupType r ext id with
+      | some td => rw [hl] at hx; simp [opaques] at hx
+      | none =>
+        rw [hl] at hx
+        simp only [opaques, List.mem_cons] at hx
+        rcases hx with rfl | hx
+        · exact hl
+        · rw [opaquesArgs_mem] at hx
+          obtain ⟨a', ha', hx'⟩ := hx
+          rw [resolveArgs_eq_map, List.mem_map] at ha'
+          obtain ⟨a, ha, rfl⟩ := ha'
+          exact ih a ha x hx'
+    | intro t ih x hx
+      rw [resolveArg, opaquesArg] at hx
+      exact ih x hx
+    | intro es ih x hx
+      rw [resolveArg, opaquesArg, opaquesArgs_mem] at hx
+      obtain ⟨a', ha', hx'⟩ := hx
+      rw [resolveArgs_eq_map, List.mem_map] at ha'
+      obtain ⟨a, ha, rfl⟩ := ha'
+      exact ih a ha x hx'
+    | intros
+      simp_all [resolveTy, resolveArg, opaques, opaquesArg]
+
+theorem map_eq_self {α : Type} (f : α → α) (l : List α) (h : ∀ x ∈ l, f x = x) : l.map f = l := by
+  induction l with
+  | nil => rfl
+  | cons a l ih =>
+    rw [List.map_cons, h a List.mem_cons_self, ih (fun x hx => h x (List.mem_cons_of_mem _ hx))]
+
+/-- an expression without an opaque type naming a known definition is returned unchanged -/
+theorem untouched_all (r : Registry) :
+    (∀ t, (∀ x ∈ opaques t, lookupType r x.1 x.2 = none) → resolveTy r t = t) ∧
+    (∀ a, (∀ x ∈ opaquesArg a, lookupType r x.1 x.2 = none) → resolveArg r a = a) := by
+  refine ⟨@induct_ty (fun t => (∀ x ∈ opaques t, lookupType r x.1 x.2 = none) → resolveTy r t = t)
+            (fun a => (∀ x ∈ opaquesArg a, lookupType r x.1 x.2 = none) → resolveArg r a = a)
+            ?_ ?_ ?_ ?_ ?_ ?_ ?_ ?_ ?_ ?_ ?_ ?_ ?_ ?_ ?_ ?_ ?_,
+          @induct_arg (fun t => (∀ x ∈ opaques t, lookupType r x.1 x.2 = none) → resolveTy r t = t)
+            (fun a => (∀ x ∈ opaquesArg a, lookupType r x.1 x.2 = none) → resolveArg r a = a)
+            ?_ ?_ ?_ ?_ ?_ ?_ ?_ ?_ ?_ ?_ ?_ ?_ ?_ ?_ ?_ ?_ ?_⟩
+  all_goals first
+    | intro rows ih h
+      rw [opaques] at h
+      have : resolveRows r rows = rows := by
+        rw [resolveRows_eq_map]
+        refine map_eq_self _ _ (fun row hr => ?_)
+        rw [resolveRow_eq_map]
+        exact map_eq_self _ _ (fun t ht => ih row hr t ht
+          (fun x hx => h x ((opaquesRows_mem rows x).2 ⟨row, hr, t, ht, hx⟩)))
+      rw [resolveTy, this]
+    | intro i o rq ihi iho h
+      rw [opaques] at h
+      have h1 : resolveRow r i = i := by
+        rw [resolveRow_eq_map]
+        exact map_eq_self _ _ (fun t ht => ihi t ht
+          (fun x hx => h x (List.mem_append_left _ ((opaquesRow_mem i x).2 ⟨t, ht, hx⟩))))
+      have h2 : resolveRow r o = o := by
+        rw [resolveRow_eq_map]
+        exact map_eq_self _ _ (fun t ht => iho t ht
+          (fun x hx => h x (List.mem_append_right _ ((opaquesRow_mem o x).2 ⟨t, ht, hx⟩))))
+      rw [resolveTy, h1, h2]
+    | intro ps i o rq ihi iho h
+      rw [opaques] at h
+      have h1 : resolveRow r i = i := by
+        rw [resolveRow_eq_map]
+        exact map_eq_self _ _ (fun t ht => ihi t ht
+          (fun x hx => h x (List.mem_append_left _ ((opaquesRow_mem i x).2 ⟨t, ht, hx⟩))))
+      have h2 : resolveRow r o = o := by
+        rw [resolveRow_eq_map]
+        exact map_eq_self _ _ (fun t ht => iho t ht
+          (fun x hx => h x (List.mem_append_right _ ((opaquesRow_mem o x).2 ⟨t, ht, hx⟩))))
+      rw [resolveTy, h1, h2]
+    | intro id b args ext ih h
+      rw [opaques] at h
+      have h1 : resolveArgs r args = args := by
+        rw [resolveArgs_eq_map]
+        exact map_eq_self _ _ (fun a ha => ih a ha
+          (fun x hx => h x (List.mem_cons_of_mem _ ((opaquesArgs_mem args x).2 ⟨a, ha, hx⟩))))
+      have h0 := h (ext, id) List.mem_cons_self
+      simp only at h0
+      rw [resolveTy, h0, h1]
+    | intro t ih h
+      rw [opaquesArg] at h
+      rw [resolveArg, ih h]
+    | intro es ih h
+      rw [opaquesArg] at h
+      have h1 : resolveArgs r es = es := by
+        rw [resolveArgs_eq_map]
+        exact map_eq_self _ _ (fun a ha => ih a ha (fun x hx => h x ((opaquesArgs_mem es x).2 ⟨a, ha, hx⟩)))
+      rw [resolveArg, h1]
+    | intros
+      simp [resolveTy, resolveArg]
+
+/-! ### operations -/
+
+open HugrVerif.Op HugrVerif.OpProofs
+
+/-- the operation with its free-text description replaced by its definition's, where resolution
+    finds a definition (the one change of the serialised form the property allows) -/
+def withDefDescription (r : Registry) : Op → Op
+  | .custom n sig d e args =>
+    match lookupOp r e n with
+    | some od => .custom n sig od.description e args
+    | none => .custom n sig d e args
+  | op => op
+
+theorem resolveSig_toTy (r : Registry) (s : Sig) : (resolveSig r s).toTy = resolveTy r s.toTy := by
+  simp [resolveSig, Sig.toTy, resolveTy]
+
+theorem consistentTy_sig (r : Registry) (s : Sig) :
+    consistentTy r s.toTy = (consistentRow r s.inp && consistentRow r s.out) := by
+  simp [Sig.toTy, consistentTy]
+
+theorem encSig_resolveSig (r : Registry) (hwf : RegistryWf r) (s : Sig)
+    (hc : (consistentRow r s.inp && consistentRow r s.out) = true) : encSig (resolveSig r s) = encSig s := by
+  rw [encSig, encSig, resolveSig_toTy, ((wire_all r hwf).1 s.toTy (by rw [consistentTy_sig]; exact hc)).1]
+
+theorem encArgsJ_resolveArgs (r : Registry) (hwf : RegistryWf r) (a : List TypeArg) (hc : consistentArgs r a = true) :
+    encArgsJ (resolveArgs r a) = encArgsJ a := by
+  rw [consistentArgs_iff] at hc
+  simp only [encArgsJ, encArgs_resolveArgs r a (fun x hx => ((wire_all r hwf).2 x (hc x hx)).1)]
+
+theorem resolveOp_not_custom (r : Registry) (op : Op) (h : ∀ n s d e a, op ≠ .custom n s d e a) : resolveOp r op = op := by
+  cases op <;> first | rfl | exact absurd rfl (h _ _ _ _ _)
+
+theorem withDefDescription_not_custom (r : Registry) (op : Op) (h : ∀ n s d e a, op ≠ .custom n s d e a) :
+    withDefDescription r op = op := by
+  cases op <;> first | rfl | exact absurd rfl (h _ _ _ _ _)
+
+/-- **The serialised operation** after resolution is the serialised original with the description
+    replaced by the definition's. -/
+theorem encOp_resolveOp (r : Registry) (hwf : RegistryWf r) (op : Op) (hc : consistentOp r op = true) (p : Int) :
+    encOp (resolveOp r op) p = encOp (withDefDescription r op) p := by
+  by_cases hcu : ∃ n s d e a, op = .custom n s d e a
+  · obtain ⟨n, s, d, e, a, rfl⟩ := hcu
+    simp only [consistentOp, Bool.and_eq_true] at hc
+    rw [resolveOp, withDefDescription]
+    cases hl : lookupOp r e n with
+    | none => rfl
+    | some od =>
+      simp only []
+      obtain ⟨hde, hdn⟩ := opDefRef_names r hwf e n od hl
+      have hs := encSig_resolveSig r hwf s (by simp [hc.1.1, hc.1.2])
+      have ha := encArgsJ_resolveArgs r hwf a hc.2
+      simp only [encOp, extOpCustom, hde, hdn, pure, Except.pure, bind, Except.bind, encCustom, hs, ha]
+      rfl
+  · have h : ∀ n s d e a, op ≠ .custom n s d e a := fun n s d e a he => hcu ⟨n, s, d, e, a, he⟩
+    rw [resolveOp_not_custom r op h, withDefDescription_not_custom r op h]
+
+/-- drop the member `description` of a JSON object -/
+def eraseDescription : Json → Json
+  | .obj kvs => .obj (kvs.filter (fun kv => kv.1 != "description"))
+  | j => j
+
+theorem encCustom_eraseDescription (p : Int) (n : String) (s : Sig) (d d' e : String) (a : List TypeArg) :
+    (encCustom p n s d e a).map eraseDescription = (encCustom p n s d' e a).map eraseDescription := by
+  simp only [encCustom, bind, Except.bind, pure, Except.pure]
+  cases encSig s with
+  | error _ => rfl
+  | ok js =>
+    cases encArgsJ a with
+    | error _ => rfl
+    | ok ja => simp [Except.map, eraseDescription, List.filter]
+
+theorem encOp_withDefDescription (r : Registry) (op : Op) (p : Int) :
+    (encOp (withDefDescription r op) p).map eraseDescription = (encOp op p).map eraseDescription := by
+  by_cases hcu : ∃ n s d e a, op = .custom n s d e a
+  · obtain ⟨n, s, d, e, a, rfl⟩ := hcu
+    rw [withDefDescription]
+    cases lookupOp r e n with
+    | none => rfl
+    | some od => simp only [encOp]; exact encCustom_eraseDescription p n s _ _ e a
+  · have h : ∀ n s d e a, op ≠ .custom n s d e a := fun n s d e a he => hcu ⟨n, s, d, e, a, he⟩
+    rw [withDefDescription_not_custom r op h]
+
+/-! #### derived facts -/
+
+/-- how a signature looks from outside: its serialised form and the bounds of its port types -/
+def sigView (s : Sig) : Except OpErr Json × List (Except BErr Bound) × List (Except BErr Bound) :=
+  (encSig s, s.inp.map bound, s.out.map bound)
+
+/-- how a port kind looks from outside: its class, and for a typed port the serialised type and its bound -/
+def kindView : Kind → String × Option (Except EncErr Json × Except BErr Bound)
+  | .value t => ("value", some (encElem t, bound t))
+  | .const t => ("const", some (encElem t, bound t))
+  | .function p => ("function", some (encTy p.toTy, .ok .copyable))
+  | .cf => ("cf", none)
+  | .order => ("order", none)
+
+theorem map_bound_resolveRow (r : Registry) (hwf : RegistryWf r) (ts : List Ty) (hc : consistentRow r ts = true) :
+    (resolveRow r ts).map bound = ts.map bound := by
+  rw [consistentRow_iff] at hc
+  rw [resolveRow_eq_map, List.map_map]
+  exact List.map_congr_left (fun t ht => ((wire_all r hwf).1 t (hc t ht)).2)
+
+theorem sigView_resolveSig (r : Registry) (hwf : RegistryWf r) (s : Sig)
+    (hi : consistentRow r s.inp = true) (ho : consistentRow r s.out = true) : sigView (resolveSig r s) = sigView s := by
+  simp only [sigView, encSig_resolveSig r hwf s (by simp [hi, ho])]
+  simp only [resolveSig, map_bound_resolveRow r hwf _ hi, map_bound_resolveRow r hwf _ ho]
+
+theorem sigPortType_resolveSig (r : Registry) (s : Sig) (d : Dir) (off : Int) :
+    sigPortType (resolveSig r s) d off = (sigPortType s d off).map (resolveTy r) := by
+  unfold sigPortType resolveSig
+  by_cases h : off = -1
+  · simp [h, Except.map]
+  · cases d <;> simp [h, resolveRow_eq_map, index_map]
+
+theorem index_mem {α : Type} (l : List α) (i : Int) (a : α) (h : index l i = .ok a) : a ∈ l := by
+  unfold index at h
+  cases hp : Ty.pyIndex l i with
+  | none => rw [hp] at h; cases h
+  | some b => rw [hp] at h; cases h; exact Ty.pyIndex_mem l i a hp
+
+theorem sigPortType_mem (s : Sig) (d : Dir) (off : Int) (t : Ty) (h : sigPortType s d off = .ok t) :
+    t ∈ s.inp ∨ t ∈ s.out := by
+  unfold sigPortType at h
+  split at h
+  · cases h
+  · cases d
+    · exact Or.inl (index_mem _ _ _ h)
+    · exact Or.inr (index_mem _ _ _ h)
+
+theorem portKind_custom (n : String) (s : Sig) (d e : String) (a : List TypeArg) (dir : Dir) (off : Int) :
+    portKind (.custom n s d e a) dir off =
+      if off = -1 then .ok .order else (sigPortType s dir off).map Kind.value := by
+  simp only [portKind, dfPortKind, portType, isDataflowOp, outerSig, if_true, bind, Except.bind, pure, Except.pure]
+  split
+  · rfl
+  · cases sigPortType s dir off <;> rfl
+
+theorem portKind_extOp_some (dd : OpDefRef) (s : Sig) (a : List TypeArg) (dir : Dir) (off : Int) :
+    portKind (.extOp dd (some s) a) dir off =
+      if off = -1 then .ok .order else (sigPortType s dir off).map Kind.value := by
+  simp only [portKind, dfPortKind, portType, isDataflowOp, outerSig, if_true, bind, Except.bind, pure, Except.pure]
+  split
+  · rfl
+  · cases sigPortType s dir off <;> rfl
+
+theorem kindView_value_resolve (r : Registry) (hwf : RegistryWf r) (t : Ty) (hc : consistentTy r t = true) :
+    kindView (.value (resolveTy r t)) = kindView (.value t) := by
+  obtain ⟨h1, h2⟩ := (wire_all r hwf).1 t hc
+  simp [kindView, encElem_resolve r t h1, h2]
+
+/-- **Derived facts** of an operation are the same after resolution: the signature as seen from
+    outside, the number of outputs, and every port's kind, serialised type and bound. -/
+theorem facts_resolveOp (r : Registry) (hwf : RegistryWf r) (op : Op) (hc : consistentOp r op = true) :
+    (outerSig (resolveOp r op)).map sigView = (outerSig op).map sigView ∧
+    numOut (resolveOp r op) = numOut op ∧
+    ∀ dir off, (portKind (resolveOp r op) dir off).map kindView = (portKind op dir off).map kindView := by
+  by_cases hcu : ∃ n s d e a, op = .custom n s d e a
+  · obtain ⟨n, s, d, e, a, rfl⟩ := hcu
+    simp only [consistentOp, Bool.and_eq_true] at hc
+    rw [resolveOp]
+    cases hl : lookupOp r e n with
+    | none => exact ⟨rfl, rfl, fun _ _ => rfl⟩
+    | some od =>
+      simp only []
+      refine ⟨?_, ?_, ?_⟩
+      · simp only [outerSig, Except.map, sigView_resolveSig r hwf s hc.1.1 hc.1.2]
+      · simp [numOut, outerSig, bind, Except.bind, pure, Except.pure, resolveSig, resolveRow_eq_map]
+      · intro dir off
+        rw [portKind_custom, portKind_extOp_some]
+        split
+        · rfl
+        · rw [sigPortType_resolveSig]
+          cases hs : sigPortType s dir off with
+          | error _ => rfl
+          | ok t =>
+            have hm := sigPortType_mem s dir off t hs
+            have hct : consistentTy r t = true := by
+              rcases hm with hm | hm
+              · exact (consistentRow_iff r s.inp).1 hc.1.1 t hm
+              · exact (consistentRow_iff r s.out).1 hc.1.2 t hm
+            simp only [Except.map, kindView_value_resolve r hwf t hct]
+  · have h : ∀ n s d e a, op ≠ .custom n s d e a := fun n s d e a he => hcu ⟨n, s, d, e, a, he⟩
+    rw [resolveOp_not_custom r op h]
+    exact ⟨rfl, rfl, fun _ _ => rfl⟩
+
+theorem resolveOp_idem (r : Registry) (op : Op) : resolveOp r (resolveOp r op) = resolveOp r op := by
+  by_cases hcu : ∃ n s d e a, op = .custom n s d e a
+  · obtain ⟨n, s, d, e, a, rfl⟩ := hcu
+    rw [resolveOp]
+    cases hl : lookupOp r e n with
+    | none => simp only []; rw [resolveOp, hl]
+    | some od => rfl
+  · have h : ∀ n s d e a, op ≠ .custom n s d e a := fun n s d e a he => hcu ⟨n, s, d, e, a, he⟩
+    rw [resolveOp_not_custom r op h, resolveOp_not_custom r op h]
+
+/-! ### whole HUGRs -/
+
+section store
+open HugrVerif.Store HugrVerif.Serial
+variable {μ : Type}
+
+/-- apply `f` to the operation of every live node; nothing else of the store is touched -/
+def mapOps (f : Op → Op) (s : Store Op μ) : Store Op μ :=
+  { s with nodes := s.nodes.map (Option.map fun d => { d with op := f d.op }) }
+
+theorem resolveNodes_eq_map (r : Registry) (ns : List (Option (NodeData Op μ))) :
+    resolveNodes r ns = ns.map (Option.map fun d => { d with op := resolveOp r d.op }) := by
+  induction ns with
+  | nil => rfl
+  | cons n ns ih => cases n <;> simp [resolveNodes, ih]
+
+theorem resolveStore_eq_mapOps (r : Registry) (s : Store Op μ) : resolveStore r s = mapOps (resolveOp r) s := by
+  simp [resolveStore, mapOps, resolveNodes_eq_map]
+
+theorem getNode_mapOps (f : Op → Op) (s : Store Op μ) (i : Nat) :
+    getNode (mapOps f s) i = (getNode s i).map (fun d => { d with op := f d.op }) := by
+  simp only [getNode, mapOps, List.getElem?_map]
+  cases h : s.nodes[i]? with
+  | none => rfl
+  | some o => cases o <;> rfl
+
+theorem liveNodes_mapOps (f : Op → Op) (s : Store Op μ) : liveNodes (mapOps f s) = liveNodes s := by
+  simp only [liveNodes, mapOps, List.length_map]
+  apply List.filter_congr
+  intro i _
+  simp only [List.getElem?_map]
+  cases s.nodes[i]? with
+  | none => rfl
+  | some o => cases o <;> rfl
+
+theorem hierLoop_mapOps (f : Op → Op) (s : Store Op μ) :
+    ∀ (fuel : Nat) (ready : List Nat) (ns : Dict Nat Nat) (acc : List Nat),
+      hierLoop (mapOps f s) fuel ready ns acc = hierLoop s fuel ready ns acc
+  | 0, _, _, _ => rfl
+  | fuel + 1, ready, ns, acc => by
+    rw [hierLoop, hierLoop]
+    cases popMin ready with
+    | none => rfl
+    | some p =>
+      obtain ⟨idx, rd⟩ := p
+      simp only []
+      rw [getNode_mapOps]
+      cases getNode s idx with
+      | error e => rfl
+      | ok d =>
+        simp only [Except.map]
+        cases Dict.get idx (recordSiblings ns d.children) with
+        | none => simp only []; exact hierLoop_mapOps f s fuel _ _ _
+        | some sib => simp only []; exact hierLoop_mapOps f s fuel _ _ _
+
+theorem hierarchyOrder_mapOps (f : Op → Op) (s : Store Op μ) : hierarchyOrder (mapOps f s) = hierarchyOrder s := by
+  unfold hierarchyOrder
+  rw [liveNodes_mapOps, hierLoop_mapOps]
+  simp [mapOps]
+
+theorem mapOps_mapOps (f g : Op → Op) (s : Store Op μ) : mapOps f (mapOps g s) = mapOps (fun op => f (g op)) s := by
+  simp only [mapOps, List.map_map]
+  congr 1
+  apply List.map_congr_left
+  intro o _
+  cases o <;> rfl
+
+theorem mapOps_congr (f g : Op → Op) (s : Store Op μ) (h : ∀ i d, getNode s i = .ok d → f d.op = g d.op) :
+    mapOps f s = mapOps g s := by
+  simp only [mapOps]
+  congr 1
+  apply List.map_congr_left
+  intro o ho
+  cases o with
+  | none => rfl
+  | some d =>
+    obtain ⟨i, hi⟩ := List.getElem?_of_mem ho
+    have : getNode s i = .ok d := by simp [getNode, hi]
+    simp [h i d this]
+
+theorem mapOps_id (s : Store Op μ) : mapOps (fun op => op) s = s := by
+  cases s with
+  | mk nodes links free root =>
+    simp only [mapOps]
+    congr 1
+    refine map_eq_self _ _ (fun o _ => ?_)
+    cases o <;> rfl
+
+/-! #### the serialised document -/
+
+theorem serialNode_mapOps_congr (c : OpCodec Op) (f g : Op → Op) (s : St Op) (order : List Nat) (i : Nat)
+    (h : ∀ d, getNode s i = .ok d → ∀ p, c.enc (f d.op) p = c.enc (g d.op) p) :
+    serialNode c (mapOps f s) order i = serialNode c (mapOps g s) order i := by
+  unfold serialNode
+  rw [getNode_mapOps, getNode_mapOps]
+  cases hg : getNode s i with
+  | error e => rfl
+  | ok d =>
+    simp only [liftS, Except.map]
+    cases rekey order (d.parent.getD i) with
+    | error e => rfl
+    | ok p => simp only []; rw [h d hg p]
+
+theorem constrainOffset_mapOps_congr (c : OpCodec Op) (f g : Op → Op) (s : St Op) (node : Nat) (off : Int) (inc : Bool)
+    (h : ∀ d, getNode s node = .ok d → ∀ b, c.orderOff (f d.op) b = c.orderOff (g d.op) b) :
+    constrainOffset c (mapOps f s) node off inc = constrainOffset c (mapOps g s) node off inc := by
+  unfold constrainOffset
+  rw [getNode_mapOps, getNode_mapOps]
+  cases hg : getNode s node with
+  | error e => rfl
+  | ok d => simp only [liftS, Except.map]; rw [h d hg inc]
+
+theorem serialLink_mapOps_congr (c : OpCodec Op) (f g : Op → Op) (s : St Op) (order : List Nat) (e : SubPort × SubPort)
+    (h : ∀ i d, getNode s i = .ok d → ∀ b, c.orderOff (f d.op) b = c.orderOff (g d.op) b) :
+    serialLink c (mapOps f s) order e = serialLink c (mapOps g s) order e := by
+  unfold serialLink
+  rw [constrainOffset_mapOps_congr c f g s e.1.node e.1.offset false (h e.1.node),
+    constrainOffset_mapOps_congr c f g s e.2.node e.2.offset true (h e.2.node)]
+
+/-- two ways of rewriting the operations that agree on what the codec reads of them give the same document -/
+theorem toJson_mapOps_congr (c : OpCodec Op) (f g : Op → Op) (s : St Op) (enc : String)
+    (h : ∀ i d, getNode s i = .ok d →
+      (∀ p, c.enc (f d.op) p = c.enc (g d.op) p) ∧ ∀ b, c.orderOff (f d.op) b = c.orderOff (g d.op) b) :
+    toJson c enc (mapOps f s) = toJson c enc (mapOps g s) := by
+  unfold toJson toSerial
+  rw [hierarchyOrder_mapOps, hierarchyOrder_mapOps]
+  cases hierarchyOrder s with
+  | error e => rfl
+  | ok order =>
+    simp only [liftS]
+    have hn : order.mapM (serialNode c (mapOps f s) order) = order.mapM (serialNode c (mapOps g s) order) :=
+      ExceptList.mapM_congr _ _ order (fun i _ => serialNode_mapOps_congr c f g s order i (fun d hd => (h i d hd).1))
+    have hl : (mapOps f s).links.fwd.mapM (serialLink c (mapOps f s) order)
+        = (mapOps g s).links.fwd.mapM (serialLink c (mapOps g s) order) :=
+      ExceptList.mapM_congr _ _ s.links.fwd
+        (fun e _ => serialLink_mapOps_congr c f g s order e (fun i d hd => (h i d hd).2))
+    rw [hn, hl]
+
+theorem opOrderOff_resolveOp (r : Registry) (op : Op) (b : Bool) :
+    opOrderOff (resolveOp r op) b = opOrderOff (withDefDescription r op) b := by
+  by_cases hcu : ∃ n s d e a, op = .custom n s d e a
+  · obtain ⟨n, s, d, e, a, rfl⟩ := hcu
+    rw [resolveOp, withDefDescription]
+    cases lookupOp r e n with
+    | none => rfl
+    | some od => simp [opOrderOff, isDataflowOp, outerSig, resolveSig, resolveRow_eq_map]
+  · have h : ∀ n s d e a, op ≠ .custom n s d e a := fun n s d e a he => hcu ⟨n, s, d, e, a, he⟩
+    rw [resolveOp_not_custom r op h, withDefDescription_not_custom r op h]
+
+/-- every live node's operation satisfies `OpConsistent` -/
+def StoreConsistent (r : Registry) (s : Store Op μ) : Prop :=
+  ∀ i d, getNode s i = .ok d → consistentOp r d.op = true
+
+/-- **The serialised document** of the resolved HUGR is the document of the original with the
+    descriptions of the resolved operations replaced by their definitions'. -/
+theorem toJson_resolveStore (r : Registry) (hwf : RegistryWf r) (s : St Op) (hc : StoreConsistent r s)
+    (fuel : Nat) (enc : String) :
+    toJson (opsCodec fuel) enc (resolveStore r s) = toJson (opsCodec fuel) enc (mapOps (withDefDescription r) s) := by
+  rw [resolveStore_eq_mapOps]
+  apply toJson_mapOps_congr
+  intro i d hd
+  refine ⟨fun p => ?_, fun b => opOrderOff_resolveOp r d.op b⟩
+  simp only [opsCodec, encOp_resolveOp r hwf d.op (hc i d hd)]
+
+theorem resolveStore_idem (r : Registry) (s : Store Op μ) : resolveStore r (resolveStore r s) = resolveStore r s := by
+  rw [resolveStore_eq_mapOps, resolveStore_eq_mapOps, mapOps_mapOps]
+  exact mapOps_congr _ _ s (fun _ d _ => resolveOp_idem r d.op)
+
+end store
 
 end HugrVerif.Resolve
